@@ -172,6 +172,20 @@ def run(ctx):
                 ctx.violation('Gradient differs from the single Jacobian row', gradient=np.ravel(g).tolist(), row=np.ravel(Jr).tolist(), **rep)
             # directionaldiff
             v = np.array([rng.uniform(-1, 1) for _ in range(n)])
+            if np.linalg.norm(v) > 1e-3 and rng.random() < 0.5:
+                # a direction typed by hand: unit length to five or six decimals only (0.70711, 0, 0.70711), or a coordinate axis, or a
+                # unit vector scaled by exactly 3 — the result is Gradient . v/|v| for every non-zero v
+                kind_v = rng.choice(['rounded', 'rounded', 'almost', 'axis', 'times3'])
+                u = v / np.linalg.norm(v)
+                if kind_v == 'rounded':
+                    v = np.round(u, rng.choice([5, 6]))
+                elif kind_v == 'almost':
+                    v = u * (1.0 + rng.choice([-1, 1]) * 10.0 ** rng.uniform(-7, -5.1))
+                elif kind_v == 'axis':
+                    v = np.zeros(n)
+                    v[rng.randrange(n)] = rng.choice([1.0, -1.0])
+                else:
+                    v = 3.0 * np.round(u, 5)
             if np.linalg.norm(v) > 1e-3:
                 with warnings.catch_warnings():
                     warnings.simplefilter('ignore')
